@@ -462,6 +462,27 @@ def _norm_pred(ci, e) -> str:
     return unparse(e)
 
 
+def _aggregates(e, pos=True):
+    """(aggregator 'all'|'any', occurs positively?, text) for every np.all/np.any/.all()/.any() over a comparison in the boolean expression e"""
+    out = []
+    if isinstance(e, ast.UnaryOp) and isinstance(e.op, ast.Not):
+        return _aggregates(e.operand, not pos)
+    if isinstance(e, ast.BoolOp):
+        for v in e.values:
+            out += _aggregates(v, pos)
+        return out
+    if isinstance(e, ast.Call):
+        cn = call_name(e) or ""
+        agg = None
+        if cn in ("np.all", "np.any", "numpy.all", "numpy.any", "all", "any") and e.args:
+            agg, inner = cn.rsplit(".", 1)[-1], e.args[0]
+        elif isinstance(e.func, ast.Attribute) and e.func.attr in ("all", "any") and not e.args:
+            agg, inner = e.func.attr, e.func.value
+        if agg and any(isinstance(c, ast.Compare) for c in ast.walk(inner)):
+            out.append((agg, pos, unparse(inner)))
+    return out
+
+
 def _r4(chk, repo):
     dens = repo.cls(DENSITY)
     n = 0
@@ -494,6 +515,14 @@ def _r4(chk, repo):
             gpreds = {_norm_pred(ci, t).replace(arg, "x") for t, v, s in g_sup}
             if lpreds != gpreds:
                 problems.append(f"log-density is -inf when {sorted(lpreds)} but the gradient's out-of-support test is {sorted(gpreds)}")
+        # a point is outside the support of a product density as soon as ONE component is: component-wise comparisons of the argument are
+        # aggregated with any(...) where they occur positively in an out-of-support test (and with all(...) under a negation)
+        for t, v, s in g_sup + l_sup:
+            for agg, pos, txt in _aggregates(ast.parse(_norm_pred(ci, t), mode="eval").body):
+                if (agg == "all" and pos) or (agg == "any" and not pos):
+                    problems.append(f"out-of-support test aggregates `{txt}` with {'all' if pos else 'not any'}: a point with SOME components outside the support is treated "
+                                    f"as inside (the log-density is -inf there while this branch computes a finite value)")
+        problems = list(dict.fromkeys(problems))
         chk.add("C03-R4", inst, not problems, site(repo, gfn), "support predicates agree; NaN outside the support", "; ".join(problems), gfn)
     # MHN: scalar helper
     mhn = repo.cls("cuqi/distribution/_modifiedhalfnormal.py:ModifiedHalfNormal")
